@@ -85,7 +85,7 @@ def observe(pid, s, c):
         o["depth"] = vals(s.depth)
     elif pid == "C16":
         from ocean_science_utilities.wavespectra.timeseries import surface_timeseries
-        one = s.isel(time=0) if "time" in s.dims else s
+        one = s
         for comp in ("z", "w") + (("x",) if two_d else ()):
             t, x = surface_timeseries(comp, 2.0, 64, one, seed=7)
             o["series_" + comp] = vals(x)
@@ -117,6 +117,8 @@ def mutate(s, c):
 
 def one_case(c):
     s = build(c)
+    if PID == "C16" and "time" in s.dims:
+        s = s.isel(time=0)          # one object, kept for all three queries
     before = observe(PID, s, c)
     mutate(s, c)
     reused = observe(PID, s, c)
